@@ -27,7 +27,7 @@ func init() { Registry["C07"] = C07_Run }
 //                   followed by the probe, compared with the probe alone.
 
 var c07Probes = []string{"int-test", "int-coerce", "int-required", "struct", "slice", "custom-issue", "ptr-validate", "null-json", "msgfunc", "shared-schema", "outside-tests", "i18n-default"}
-var c07Priors = []string{"ctxvalue", "formatter", "failing-struct", "collect-map", "collect-list", "catching", "panicking", "null-json", "shared-then-collect", "tests-ran", "i18n-es"}
+var c07Priors = []string{"ctxvalue", "formatter", "failing-struct", "collect-map", "collect-list", "catching", "panicking", "null-json", "shared-then-collect", "tests-ran", "i18n-es", "empty-tag"}
 
 func C07_Jobs() []string {
 	var out []string
@@ -178,6 +178,9 @@ func c07Probe(kind string, g, x int) *c07Obs {
 		var d struct{ A int }
 		errs := z.Struct(z.Schema{"a": z.Int()}).Parse(zjson.Decode(strings.NewReader("null")), &d, z.WithIssueFormatter(func(e *z.ZogIssue, c z.Ctx) { e.SetMessage("probe-formatter") }))
 		obsMap(o, errs)
+		// (state that outlives ClearPools would make the dirty and the clean run agree with each
+		// other: this execution's own formatter is checked absolutely)
+		v.Assert(len(errs["$root"]) == 1 && errs["$root"][0].Message == "probe-formatter" && errs["$root"][0].Code == "invalid_json", "C07:result-depends-on-earlier-executions")
 	case "msgfunc":
 		// a test-level MessageFunc that leaves the message alone for this issue: the message then
 		// comes from this execution's formatter, never from an earlier execution
@@ -335,6 +338,22 @@ func c07Prior(kind string) {
 		z.Issues.SanitizeMapAndCollect(z.Struct(z.Schema{"a": z.Int().Test(c07SharedTest)}).Parse(map[string]any{"a": 5}, &ds))
 		z.Int().Test(c07SharedTest).Catch(1).Parse(5, &d)
 		z.Int().GT(100, z.Message("EARLIER MESSAGE")).Catch(1).Parse(5, &d)
+	case "empty-tag":
+		// an earlier (successful or failing) call on a destination with an empty-tag field, at the
+		// root and nested, in both modes
+		type inner struct {
+			Kind string `zog:""`
+			City string
+		}
+		type outer struct {
+			Kind string `zog:""`
+			Name string
+			In   inner
+		}
+		var d outer
+		sc := z.Struct(z.Schema{"kind": z.String(), "name": z.String().Min(1), "in": z.Struct(z.Schema{"kind": z.String(), "city": z.String().Min(v.Choice("city-min", 2) * 9)})})
+		sc.Parse(map[string]any{"": "k", "name": "n", "in": map[string]any{"": "k", "city": "c"}}, &d)
+		sc.Validate(&d)
 	case "tests-ran":
 		// executions whose last test carried a code, params and an IssuePath (passing and failing)
 		d := ""
